@@ -14,6 +14,10 @@ type thread struct {
 	name   string
 	resume chan struct{}
 	done   bool
+	// ready, when set, says whether a thread that parked in Block can go on; the controller does not
+	// pick it before
+	ready func() bool
+	on    string
 }
 
 type event struct {
@@ -24,14 +28,17 @@ type event struct {
 }
 
 type Sched struct {
-	mu      sync.Mutex
-	threads []*thread
-	cur     *thread
-	parked  chan event
-	Trace   []string
-	Steps   int
-	Panic   any
+	mu         sync.Mutex
+	threads    []*thread
+	cur        *thread
+	parked     chan event
+	Trace      []string
+	Steps      int
+	Panic      any
 	PanicStack string
+	// Deadlock: threads that are parked in Block (with what they wait for) at a moment when no
+	// thread can run although not all have finished.  Run returns false then.
+	Deadlock []string
 }
 
 var cur *Sched
@@ -67,14 +74,27 @@ func (s *Sched) Run(choose Chooser, maxSteps int) bool {
 	for {
 		var run []*thread
 		var names []string
+		alive := 0
 		for _, t := range s.threads {
 			if !t.done {
+				alive++
+				if t.ready != nil && !t.ready() {
+					continue
+				}
 				run = append(run, t)
 				names = append(names, t.name)
 			}
 		}
-		if len(run) == 0 {
+		if alive == 0 {
 			return true
+		}
+		if len(run) == 0 {
+			for _, t := range s.threads {
+				if !t.done {
+					s.Deadlock = append(s.Deadlock, t.name+" waits in "+t.on)
+				}
+			}
+			return false
 		}
 		if s.Steps >= maxSteps {
 			return false
@@ -104,6 +124,24 @@ func Yield(label string) {
 	s.Trace = append(s.Trace, fmt.Sprintf("%s@%s", t.name, label))
 	s.parked <- event{t: t}
 	<-t.resume
+}
+
+// Active reports whether a scheduler is driving the calling code.
+func Active() bool { return cur != nil }
+
+// Block parks the calling managed thread until ready() holds.  When it holds already the call
+// returns at once and is not a scheduling point.  No-op without a scheduler.
+func Block(label string, ready func() bool) {
+	s := cur
+	if s == nil || ready() {
+		return
+	}
+	t := s.cur
+	t.ready, t.on = ready, label
+	s.Trace = append(s.Trace, fmt.Sprintf("%s@%s", t.name, label))
+	s.parked <- event{t: t}
+	<-t.resume
+	t.ready, t.on = nil, ""
 }
 
 // Go starts fn as a managed thread under the active scheduler, or a plain goroutine.
